@@ -9,7 +9,7 @@ use btdht::SocketTrait;
 use rand::{Rng, SeedableRng};
 use rand_chacha::ChaCha8Rng;
 use std::{
-    collections::HashMap,
+    collections::{BTreeSet, HashMap},
     io,
     net::SocketAddr,
     sync::{Arc, Mutex},
@@ -156,7 +156,42 @@ pub trait Actor: Send {
 
 type Matcher = Box<dyn Fn(&SocketAddr) -> bool + Send>;
 
+/// Per-socket bookkeeping for tie-free delivery: no two datagrams reach the socket in the same
+/// millisecond tick, and none arrives in a tick in which one of the node's own query / end-game
+/// timers may fire (1 ms timer granularity makes same-tick events race in the node's `select!`).
+#[derive(Default)]
+struct TieState {
+    reserved: BTreeSet<u64>,
+    forbidden: BTreeSet<u64>,
+}
+
+impl TieState {
+    fn forbid_around(&mut self, tick: u64) {
+        for t in tick.saturating_sub(1)..=tick + 1 {
+            self.forbidden.insert(t);
+        }
+    }
+    fn free_tick(&mut self, mut tick: u64) -> u64 {
+        while self.reserved.contains(&tick) || self.forbidden.contains(&tick) {
+            tick += 1;
+        }
+        tick
+    }
+    fn prune(&mut self, now_tick: u64) {
+        if self.forbidden.len() + self.reserved.len() > 4096 {
+            let keep = now_tick.saturating_sub(2);
+            self.forbidden = self.forbidden.split_off(&keep);
+            self.reserved = self.reserved.split_off(&keep);
+        }
+    }
+}
+
+/// Timer offsets (ms) after one of the node's own sends at which a timer of the node may fire:
+/// bootstrap node timeout, query timeout, initial bootstrap timeout, query timeout + end-game.
+const TIMER_OFFSETS_MS: [u64; 4] = [500, 1500, 2500, 3000];
+
 struct Inner {
+    tie: HashMap<SocketAddr, TieState>,
     t0: tokio::time::Instant,
     rng: ChaCha8Rng,
     sockets: HashMap<SocketAddr, mpsc::UnboundedSender<(Arc<Vec<u8>>, SocketAddr)>>,
@@ -179,6 +214,7 @@ pub struct Net(Arc<Mutex<Inner>>);
 impl Net {
     pub fn new(seed: u64) -> Net {
         Net(Arc::new(Mutex::new(Inner {
+            tie: HashMap::new(),
             t0: tokio::time::Instant::now(),
             rng: ChaCha8Rng::seed_from_u64(seed ^ 0x6e65_7473_696d),
             sockets: HashMap::new(),
@@ -212,6 +248,11 @@ impl Net {
 
     pub fn set_link(&self, link: Link) {
         self.set_fault(link.into_fn());
+    }
+
+    /// Deliver datagrams to the socket at `addr` tie-free (see `TieState`).
+    pub fn set_tie_free(&self, addr: SocketAddr) {
+        self.0.lock().unwrap().tie.entry(addr).or_default();
     }
 
     pub fn set_log_enabled(&self, on: bool) {
@@ -292,6 +333,26 @@ impl Net {
                     (inner.fault)(&mut inner.rng, &meta)
                 }
             };
+            let mut fate = fate;
+            let now_tick = now / 1000;
+            if from_socket && !fate.fail {
+                if let Some(tie) = inner.tie.get_mut(&src) {
+                    for off in TIMER_OFFSETS_MS {
+                        tie.forbid_around(now_tick + off);
+                    }
+                    tie.prune(now_tick);
+                }
+            }
+            if let Some(tie) = inner.tie.get_mut(&dst) {
+                for lat in fate.deliveries.iter_mut() {
+                    let want = (now + *lat).div_ceil(1000).max(now_tick + 1);
+                    let tick = tie.free_tick(want);
+                    tie.reserved.insert(tick);
+                    // an end-game started by this delivery ends 1500 ms later
+                    tie.forbid_around(tick + 1500);
+                    *lat = tick * 1000 - now;
+                }
+            }
             let id = inner.next_id;
             inner.next_id += 1;
 
@@ -336,11 +397,39 @@ impl Net {
             let data = data.clone();
             tokio::spawn(async move {
                 tokio::time::sleep(Duration::from_micros(latency)).await;
+                // Tie-free sockets: a send made after this delivery was scheduled may have put a
+                // timer into this tick; move on to the next free tick.
+                loop {
+                    let wait = net.tie_recheck(&dst);
+                    if wait == 0 {
+                        break;
+                    }
+                    tokio::time::sleep(Duration::from_micros(wait)).await;
+                }
                 net.deliver(id, src, dst, data, from_socket);
             });
         }
 
         (true, id)
+    }
+
+    /// 0 if a datagram may be delivered to `dst` right now, else the time to wait.
+    fn tie_recheck(&self, dst: &SocketAddr) -> Micros {
+        let mut guard = self.0.lock().unwrap();
+        let inner = &mut *guard;
+        let now = (tokio::time::Instant::now() - inner.t0).as_micros() as Micros;
+        let Some(tie) = inner.tie.get_mut(dst) else {
+            return 0;
+        };
+        let tick = now.div_ceil(1000);
+        if !tie.forbidden.contains(&tick) {
+            return 0;
+        }
+        tie.reserved.remove(&tick);
+        let next = tie.free_tick(tick + 1);
+        tie.reserved.insert(next);
+        tie.forbid_around(next + 1500);
+        next * 1000 - now
     }
 
     fn deliver(&self, id: u64, src: SocketAddr, dst: SocketAddr, data: Arc<Vec<u8>>, from_socket: bool) {
